@@ -23,11 +23,11 @@ SIZES_DT = [4, 6, 8, 10, 12, 14, 16, 17, 18, 20, 24, 27, 32]
 SIZES_SC = [8, 10, 12, 15, 16, 20, 24, 29, 32]
 SIZES_1D = [2, 3, 5, 8, 9, 16, 17, 31, 32, 33, 64, 65]
 
-FWD_FAMILIES = ["dwt1f", "dwt2f", "dtf", "scat", "scat2", "swt"]
+FWD_FAMILIES = ["dwt1f", "dwt2f", "dtf", "scat", "scat2", "swt", "dt2f"]
 INV_OF = {"dwt1f": "dwt1i", "dwt2f": "dwt2i", "dtf": "dti"}
 FWD_OF = {v: k for k, v in INV_OF.items()}
 ALL_FAMILIES = FWD_FAMILIES + list(FWD_OF)
-INPUT_RANK = {"dwt1f": 3, "dwt2f": 4, "dtf": 4, "scat": 4, "scat2": 4, "swt": 4}
+INPUT_RANK = {"dwt1f": 3, "dwt2f": 4, "dtf": 4, "scat": 4, "scat2": 4, "swt": 4, "dt2f": 4}
 
 
 def _pick(rng, seq):
@@ -99,6 +99,10 @@ def gen_params(family, rng, simple=False):
             else:
                 p["include_scale"] = [rng.random() < 0.5 for _ in range(J)]
         return p
+    if family == "dt2f":
+        # the 4-DWT dual tree of dtcwt/lowlevel2.py (nothing imports it by default)
+        return {"biort": _pick(rng, ["farras", "farras", "near_sym_a2"]), "qshift": _pick(rng, QSHIFTS),
+                "J": rng.randrange(1, 4), "mode": _pick(rng, ["symmetric", "zero", "periodization"])}
     if family == "scat":
         return {"biort": _pick(rng, SCAT_BIORTS),
                 "mode": "symmetric" if rng.random() < 0.8 else "zero",
@@ -166,6 +170,7 @@ BASE_INIT = {
     "DTCWTInverse": ["biort", "qshift", "o_dim", "ri_dim", "mode"],
     "ScatLayer": ["biort", "mode", "magbias", "combine_colour"],
     "ScatLayerj2": ["biort", "qshift", "mode", "magbias", "combine_colour"],
+    "DTCWTForward2": ["biort", "qshift", "J", "mode"],
 }
 
 
@@ -281,6 +286,9 @@ def _build(family, p, given=None):
                      skip_hps=list(sk) if isinstance(sk, list) else sk,
                      include_scale=list(inc) if isinstance(inc, list) else inc,
                      o_dim=p["o_dim"], ri_dim=p["ri_dim"], mode=p["mode"])
+    if family == "dt2f":
+        return _ctor(L.ll2.DTCWTForward2, p, biort=p["biort"], qshift=p["qshift"], J=p["J"],
+                     mode=p["mode"])
     if family == "scat":
         return _ctor(pw.ScatLayer, p, biort=p["biort"], mode=p["mode"], magbias=p["magbias"],
                      combine_colour=p["combine_colour"])
@@ -302,7 +310,7 @@ def gen_input_spec(family, p, rng, dtype=None, small=False):
     elif family in ("dwt2f", "swt"):
         pool = SIZES_2D[:9] if small else SIZES_2D
         shape = [N, C, _pick(rng, pool), _pick(rng, pool)]
-    elif family == "dtf":
+    elif family in ("dtf", "dt2f"):
         pool = SIZES_DT[:7] if small else SIZES_DT
         shape = [N, C, _pick(rng, pool), _pick(rng, pool)]
     else:
@@ -334,7 +342,8 @@ def gen_input_spec(family, p, rng, dtype=None, small=False):
 def canary_spec(family, dtype):
     """Fixed probe input per family (end-of-run canary calls)."""
     shape = {"dwt1f": [1, 2, 17], "dwt2f": [1, 2, 9, 12], "swt": [1, 1, 8, 8],
-             "dtf": [1, 2, 12, 10], "scat": [1, 3, 10, 12], "scat2": [1, 3, 16, 12]}[family]
+             "dtf": [1, 2, 12, 10], "scat": [1, 3, 10, 12], "scat2": [1, 3, 16, 12],
+             "dt2f": [1, 2, 16, 12]}[family]
     return {"shape": shape, "dtype": dtype, "layout": "contig", "seed": 12345, "scale": 1.0}
 
 
